@@ -786,7 +786,10 @@ func (g *Gen) evalBin(x *CExpr, env *Env) (Val, error) {
 			ty = b.Ty
 		}
 		eq := sEq(a.T, b.T)
-		if a.S == "Str" && ty != nil {
+		isNilLit := func(e *CExpr) bool { return e != nil && e.Op == "id" && e.Name == "nil" }
+		if a.S == "Str" && ty != nil && (isNilLit(x.Args[0]) || isNilLit(x.Args[1])) {
+			// only a comparison the contract itself writes against nil has Go's (untracked) nil-ness semantics;
+			// two byte-string values are compared as values
 			eq = g.equalVals(a, b, ty)
 		}
 		if op == "!=" {
